@@ -2374,8 +2374,10 @@ def check_gt_dataset(chk, ctx, ds):
             if which == 'subsample_all':
                 # every individual is asked for: a line is kept iff every individual of every population is completely genotyped,
                 # and then there is nothing to choose -- the counts are those of the branch without sub-sampling
+                nlines = {}
+                for s in snp_sites: nlines['%s_%d' % (s['chrom'], s['pos'])] = nlines.get('%s_%d' % (s['chrom'], s['pos']), 0) + 1
                 for k, v in dds.items():
-                    if k not in dd: continue
+                    if k not in dd or nlines.get(k) != 1: continue          # a repeated CHROM_POS: the two dictionaries may hold different lines
                     a = {p: tuple(int(x) for x in v['calls'].get(p, ())) for p in names}
                     b = {p: tuple(int(x) for x in dd[k]['calls'].get(p, ())) for p in names}
                     if a != b:
